@@ -107,6 +107,16 @@ CHECKS['C11'] = ('exploration',
          'one fixed arc R0 exp(s phi [u]) for all s.',
          'Bounded to the enumerated pairs and s values. Without shortest either arc is accepted (consistently over s).',
          'DESIGN.md 3/C11')
+CHECKS['C12'] = ('exploration',
+         'complete small-integer grids with exact comparison (polynomial identities decided for all reals) + magnitude ladders + structure-constant check of the dual-quaternion product',
+         'Associativity, distributivity, conjugate reversal, q conj(q), norm multiplicativity (squared), powers |n|<=6, matrix form, inner product '
+         'and the kinematic rate functions are executed on the complete grids {0,1}^12, {0,1,2}^8, {0..6}^4, {0,1,2}^7 and their dilations by 2 and 3 '
+         'with exact equality (multilinear / bounded-degree polynomial identities vanish identically if they vanish there), then re-checked to 1e-9 on '
+         'magnitudes 1e-6..1e6; the dual-quaternion product and 8x8 matrix form on {0,1}^16 and two dilated grids against the dual-number Hamilton table; '
+         'exp/log, the 3-vector product and the unit-dual-quaternion norm over product alphabets.',
+         'Completeness rests on the per-variable degree bounds read off the code (sums and products only), tested by the dilated grids. Small-integer '
+         'float64 arithmetic is exact.',
+         'DESIGN.md 2.3, 3/C12')
 PENDING = {}
 
 def main():
